@@ -208,6 +208,11 @@ class G:
                 ms.append(r.choice(["inv @ ", "pow(2) @ ", "pow(0) @ ", "pow(-1) @ ", "pow(3) @ ", "inv @ "]))
             if not is_custom and name not in SELF_INV_OK and r.random() < 0.8:
                 ms = [m for m in ms if m.startswith("pow(") and "-" not in m]
+            vs = self.visible(("int", "uint")) if in_gate_body is None else []
+            if vs and r.random() < 0.4:
+                # an exponent that depends on a variable (a loop variable, an accumulated value): 0..3 whatever it holds
+                ms = [("pow(%s %% 4) @ " % r.choice(vs)) if (m.startswith("pow(") and r.random() < 0.7) else m for m in ms]
+                self.note("modifier-exponent-from-variable")
             mods = "".join(ms)
             if mods:
                 self.note("modifiers")
@@ -479,6 +484,9 @@ class G:
                 elif a[1] == 1:
                     i = r.randrange(s)
                     ids, txt = [i], "%s[%d]" % (q, i)
+                elif r.random() < 0.3:
+                    ids = r.sample(range(s), a[1])           # an index set in any order
+                    txt = "%s[{%s}]" % (q, ", ".join(map(str, ids)))
                 else:
                     st = r.randint(0, s - a[1])
                     ids, txt = list(range(st, st + a[1])), "%s[%d:%d]" % (q, st, st + a[1])
@@ -763,6 +771,32 @@ ERRORS += [
     ("const-base-size-zero", "const int[0] zc = 1;"),
     ("loop-over-identifier", AR3 + "for int lo in ar { x q[0]; }"),
     ("alias-redeclares-variable", "let iv = q[0:2];"), ("alias-of-concatenation", "let alc = q ++ r;"), ("alias-two-indices", "let al2 = q[0, 1];"),
+]
+# an erroneous operand below a unary operator / deeper in an expression tree, in every position that demands a constant
+# (each expression has a valid value if the check is lost: iv = 2), and in later rows of multi-dimensional arrays
+ERRORS += [
+    ("non-const-init-under-unary-minus", "const int[8] k3 = -iv + 4;"), ("non-const-init-double-minus", "const int[8] k3 = -(-iv);"),
+    ("non-const-init-under-bitnot", "const int[8] k3 = ~iv + 4;"), ("non-const-init-nested", "const int[8] k3 = 2 * (-iv + 3);"),
+    ("non-const-init-right-operand", "const int[8] k3 = 4 - iv;"), ("non-const-init-parenthesised", "const int[8] k3 = (iv);"),
+    ("non-const-init-under-not", "const int[8] k3 = !bv;"),
+    ("non-const-size-under-unary", "qubit[-iv + 4] qq;"), ("non-const-size-double-minus", "qubit[-(-iv)] qq;"),
+    ("non-const-width-under-unary", "int[-iv + 10] ww = 1;"), ("non-const-width-under-bitnot", "int[~iv + 11] ww = 1;"),
+    ("non-const-array-dim-under-unary", "array[int[8], -iv + 4] aa;"),
+    ("switch-non-const-case-under-unary", "switch (iv) { case -iv { x q[0]; } default { x q[1]; } }"),
+    ("switch-non-const-case-under-bitnot", "switch (iv) { case ~iv { x q[0]; } default { x q[1]; } }"),
+    ("switch-non-const-case-second-value", "switch (iv) { case 1, -iv + 4 { x q[0]; } default { x q[1]; } }"),
+    ("undeclared-under-unary-minus", "rx(-nope) q[0];"), ("undeclared-under-bitnot", "rx(~nope) q[0];"), ("undeclared-under-not", "rx(!nope) q[0];"),
+    ("undeclared-nested-unary", "rx(1 - -nope) q[0];"),
+    ("uninitialised-under-unary", "int[8] un; rx(-un) q[0];"), ("uninitialised-under-bitnot", "int[8] un; int[8] u2 = ~un;"),
+    ("uninitialised-nested-unary", "int[8] un; rx(2 * -un) q[0];"),
+    ("array-element-type-range-last-row", "array[int[8], 2, 2] er2 = {{1, 2}, {3, 300}};"),
+    ("array-element-type-range-second-row-first", "array[int[8], 2, 2] er2 = {{1, 2}, {300, 4}};"),
+    ("array-element-type-range-3d-last", "array[int[8], 2, 2, 2] er3 = {{{1, 2}, {3, 4}}, {{5, 6}, {7, 300}}};"),
+    ("array-element-type-range-third-row-negative", "array[int[8], 3, 2] er4 = {{1, 2}, {3, 4}, {5, -129}};"),
+    ("array-element-type-range-float-last-row", "array[float[32], 2, 2] fr = {{1.0, 2.0}, {3.0, 1e39}};"),
+    ("array-whole-assign-range-last-row", "array[int[16], 2, 2] wd = {{1, 2}, {3, 300}}; array[int[8], 2, 2] nr; nr = wd;"),
+    ("array-slice-assign-range-last-row", "array[int[16], 2, 2] wd = {{1, 2}, {3, 300}}; array[int[8], 2, 2] nr; nr[1, 0:1] = wd[1, 0:1];"),
+    ("array-2d-slice-assign-range-last-row", "array[int[16], 2, 2] wd = {{1, 2}, {3, 300}}; array[int[8], 2, 2] nr; nr[0:1, 0:1] = wd[0:1, 0:1];"),
 ]
 TOP_ONLY = {"gphase-qubits-global", "redeclared-var"}
 
